@@ -66,7 +66,7 @@ struct SrcFile {
     fix: bool,
 }
 
-fn source_files(seed: u64, case: &str, with_empty: bool) -> Vec<SrcFile> {
+fn source_files(seed: u64, case: &str, with_empty: bool, with_sig: bool) -> Vec<SrcFile> {
     let mut rng = Rng::derive(seed, &format!("{case}:src"));
     let mut v = vec![
         SrcFile { name: "data\\plain.txt", data: gen_content("text", rng.range(200, 600) as usize, &mut rng), comp: cflags::ZLIB, enc: false, fix: false },
@@ -78,6 +78,12 @@ fn source_files(seed: u64, case: &str, with_empty: bool) -> Vec<SrcFile> {
     ];
     if with_empty {
         v.push(SrcFile { name: "data\\empty.bin", data: vec![], comp: cflags::ZLIB, enc: false, fix: false });
+    }
+    if with_sig {
+        // a weak digital signature is a listed 72-byte file named (signature): 8 zero bytes + 64 signature bytes
+        let mut d = vec![0u8; 8];
+        d.extend(rng.bytes(64));
+        v.push(SrcFile { name: "(signature)", data: d, comp: 0, enc: false, fix: false });
     }
     v
 }
@@ -99,7 +105,8 @@ fn main() {
         let mut evs: Vec<Value> = vec![];
         let spath = scratch.file(&format!("{case}-src.mpq"));
         let tpath = scratch.file(&format!("{case}-dst.mpq"));
-        let files = source_files(seed, &case, gb(src, "empty"));
+        let with_sig = src.get("sig").map(|x| x.as_bool() == Some(true)).unwrap_or(false);
+        let files = source_files(seed, &case, gb(src, "empty"), with_sig);
         // ---- source archive
         let mut b = ArchiveBuilder::new()
             .version(version(gi(src, "ver")))
@@ -141,7 +148,7 @@ fn main() {
         }
         drop(sa);
         let sig: Vec<String> = listed.iter().filter(|n| n.as_str() == "(signature)" || n.as_str() == "(strong signature)").cloned().collect();
-        evs.push(json!({"ev":"Reset","case":case,"ver":gi(src,"ver"),"at":gb(src,"at"),"empty":gb(src,"empty"),"hetbet":hetbet,
+        evs.push(json!({"ev":"Reset","case":case,"ver":gi(src,"ver"),"at":gb(src,"at"),"empty":gb(src,"empty"),"sigfile":with_sig,"hetbet":hetbet,
             "listed":listed,"tok":Value::Object(toks),"enc":enc,"sig":sig}));
         // ---- rebuild
         let target = gi(o, "target");
